@@ -9,7 +9,9 @@ from harness import core, sexp
 SECRET_NAMES = ['secret', 'secret_key', 'db_secret', 'api_secret_token', 'mysecretholder', 'top_secret_pin', 'oauth_secrets', 'xsecretx',
                 # long names: 'secret' straddling or beyond any display width
                 'stripe_webhook_endpoint_signing_secret', 'partner_reporting_gateway_secret_token', 'x' * 40 + '_secret_' + 'y' * 40]
-PLAIN_NAMES = ['db', 'config', 'Secret', 'SECRET_UPPER', 'cache', 'secre', 'sec_ret', 'version']
+PLAIN_NAMES = ['db', 'config', 'Secret', 'SECRET_UPPER', 'cache', 'secre', 'sec_ret', 'version',
+               # names the meta application uses for resources of its own
+               'page_title', '_meta_start_time']
 PREFIXES = ['/meta', '/_meta/', '/a/b/meta']
 
 
@@ -24,6 +26,9 @@ def secret_value(kind, token):
         return int(token.encode().hex(), 16)
     if kind == 'nested':
         return {'inner': [1, {'k': token}], 't': (token,)}
+    if kind in ('short_int', 'short_none', 'short_true', 'short_str'):
+        # trivial secrets (a PIN, a flag, an environment name): text that is bound to occur in other values too
+        return {'short_int': 5, 'short_none': None, 'short_true': True, 'short_str': 'dev'}[kind]
     if kind == 'obj':
         class Holder(object):
             def __init__(self, t):
@@ -202,10 +207,11 @@ def oracle(case, obs):
 
 
 def gen_case(rng, tier):
-    secrets = [[n, rng.choice(['str', 'bytes', 'rawbytes', 'num', 'nested', 'obj'])] for n in rng.sample(SECRET_NAMES, rng.choice([0, 1, 2, 3]))]
+    secrets = [[n, rng.choice(['str', 'bytes', 'rawbytes', 'num', 'nested', 'obj', 'short_int', 'short_none', 'short_true', 'short_str'])]
+               for n in rng.sample(SECRET_NAMES, rng.choice([0, 1, 2, 3]))]
     plain = []
     for n in rng.sample(PLAIN_NAMES, rng.choice([0, 1, 2, 4])):
-        plain.append([n, rng.choice([['str', 'value-of-' + n], ['num', 12345], ['long'], ['list'], ['markup'], ['decimal'], ['fraction'],
+        plain.append([n, rng.choice([['str', 'value-of-' + n], ['num', 12345], ['num', 5050], ['str', 'devices: None, True'], ['long'], ['list'], ['markup'], ['decimal'], ['fraction'],
                                      ['complex'],
                                      ['badrepr'] if rng.random() < 0.15 else ['str', 'v']])])
     return {'ctx_mw': rng.choice([None, None, 'simple', 'plain']), 'consumers': [rng.choice([None, 'function', 'default', 'method', 'callable']) for _ in range(8)],
